@@ -10,6 +10,7 @@ import (
 	"time"
 
 	"github.com/aukilabs/hagall-common/messages/hagallpb"
+	"hagallsim/simrt"
 )
 
 func TestSmoke(t *testing.T) {
@@ -54,11 +55,19 @@ func TestGenDump(t *testing.T) {
 		t.Skip("HSIM_DUMP_SEED not set")
 	}
 	seed, _ := strconv.ParseUint(sd, 10, 64)
+	if ix := os.Getenv("HSIM_DUMP_INDEX"); ix != "" {
+		// the seed TestCheck derives for run <index> from the base seed given
+		seed = simrt.Mix(seed, fmt.Sprintf("%s/%s", os.Getenv("HSIM_PROP"), ix))
+	}
 	spec := props[os.Getenv("HSIM_PROP")]
 	if spec == nil || spec.Gen == nil {
 		t.Skip("no generator")
 	}
 	sc := spec.Gen(seed, "quick")
+	if o := os.Getenv("HSIM_DUMP_OUT"); o != "" {
+		b, _ := json.MarshalIndent(&ReplayFile{Property: sc.Prop, Seed: seed, Scenario: sc}, "", " ")
+		os.WriteFile(o, b, 0o644)
+	}
 	for i, st := range sc.Steps {
 		b, _ := json.Marshal(st)
 		fmt.Println(i, string(b))
